@@ -62,6 +62,8 @@ structure Pair where
   state : PairState := .waiting
   nominated : Bool := false
   nomOnSuccess : Bool := false
+  /-- renomination value of the nomination that set `nomOnSuccess` (`deferredNominationValue`) -/
+  deferredNom : Option Nat := none
   reqCount : Nat := 0
   prioOverride : Option Nat := none
   controlling : Bool   -- role at creation (iceRoleControlling)
@@ -564,11 +566,18 @@ def Agent.handleSuccess (a : Agent) (now : Nat) (m : Msg) (l r : Cand) (src : Na
             else (a, [])
           else
             if p.nomOnSuccess then
-              match a.selected.bind a.pairById with
-              | none => a.select p.id
-              | some sp =>
-                if sp.id != p.id && (!needsPrioCheck a.cfg || a.pairPrio sp ≤ a.pairPrio p) then a.select p.id
-                else (a, [])
+              match p.deferredNom with
+              | some v =>
+                -- deferred renomination: ignored if a greater value has been accepted since, else it wins
+                let superseded := match a.lastNomination with | none => true | some last => v < last
+                if superseded then (a, [])
+                else if a.selected != some p.id then a.select p.id else (a, [])
+              | none =>
+                match a.selected.bind a.pairById with
+                | none => a.select p.id
+                | some sp =>
+                  if sp.id != p.id && (!needsPrioCheck a.cfg || a.pairPrio sp ≤ a.pairPrio p) then a.select p.id
+                  else (a, [])
             else (a, [])
         (a.modPair p.id fun p => { p with respRecv := p.respRecv + 1 }, o)
 
@@ -629,7 +638,7 @@ def Agent.cldHandleRequest (a : Agent) (now : Nat) (m : Msg) (l r : Cand) : Agen
                 else if m.nom.isSome then true
                 else !needsPrioCheck a.cfg || a.pairPrio sp < a.pairPrio p
             if sw then a.select id else (a, [])
-          else (a.modPair id fun p => { p with nomOnSuccess := true }, [])
+          else (a.modPair id fun p => { p with nomOnSuccess := true, deferredNom := m.nom }, [])
       else (a, [])
     let (a, o1) := a.sendSuccess now m l r
     let (a, o2) :=
